@@ -168,7 +168,7 @@ def h_make_return_cache(eng):
     ir.cfg.add(uni[5])
     original = ir.cfg
     body = eng.choose("body", ["noop", "add", "discard", "add_then_raise", "discard_then_raise", "raise", "modify_original",
-                               "replace_cfg", "nested", "nested_raise"])
+                               "replace_cfg", "replace_cfg_equal", "replace_cfg_other_cache", "nested", "nested_raise"])
     expected = set(original)
     raised = None
 
@@ -189,6 +189,10 @@ def h_make_return_cache(eng):
                 original.add(uni[7])
             if body == "replace_cfg":
                 ir.cfg = gtirb.CFG()
+            if body == "replace_cfg_equal":
+                ir.cfg = gtirb.CFG(ir.cfg)  # another object holding exactly the cache's edges: still a replacement
+            if body == "replace_cfg_other_cache":
+                ir.cfg = ReturnEdgeCache(ir.cfg)
             if body in ("nested", "nested_raise"):
                 with make_return_cache(ir) as inner:
                     eng.check(inner is cache, "nested make_return_cache did not reuse the active cache")
@@ -209,7 +213,7 @@ def h_make_return_cache(eng):
         final = expected
     eng.check(ir.cfg is original, "leaving make_return_cache did not restore the caller's CFG object")
     eng.check(type(ir.cfg) is gtirb.CFG, "ir.cfg is still a cache")
-    if body in ("modify_original", "replace_cfg"):
+    if body in ("modify_original", "replace_cfg", "replace_cfg_equal", "replace_cfg_other_cache"):
         eng.check(raised == "CFGModifiedError", "modification of the original CFG / replacement of ir.cfg was not reported")
         if body == "modify_original":
             return
@@ -379,7 +383,7 @@ def h_identity_set(eng, nsteps):
     s = IdentitySet()
     model = []
     for step in range(nsteps):
-        op = eng.choose("op%d" % step, ["add", "discard", "remove", "clear", "ior"])
+        op = eng.choose("op%d" % step, ["add", "discard", "remove", "clear", "ior", "copy_then_mutate"])
         o = objs[eng.choose("o%d" % step, [0, 1, 2])]
         if op == "add":
             s.add(o)
@@ -399,6 +403,14 @@ def h_identity_set(eng, nsteps):
         elif op == "clear":
             s.clear()
             model = []
+        elif op == "copy_then_mutate":
+            # a set built from another set is a set of its own
+            t = IdentitySet(s)
+            eng.check(sorted(map(id, t)) == sorted(map(id, model)), "IdentitySet(other) does not hold the other's objects")
+            t.add(o)
+            t.discard(objs[0])
+            u = IdentitySet(s)
+            u.clear()
         else:
             s |= [objs[0], o]
             for x in (objs[0], o):
@@ -424,7 +436,7 @@ class NonTermination(Exception):
 _HUNG = {}
 
 
-def watchdog(fn, seconds=3):
+def watchdog(fn, seconds=20):
     """A container operation that does not return (e.g. a cycle in the reference cache's parent links) is a violation,
     not a timeout of the exploration: every path of these harnesses takes milliseconds.  After the first such path of
     a scenario the remaining ones are not waited for."""
